@@ -160,3 +160,60 @@ def _alarm_replay(setting):
 
 SetAlarm.replay = staticmethod(lambda case, name, model: _alarm_replay(True))
 ClearAlarm.replay = staticmethod(lambda case, name, model: _alarm_replay(False))
+
+
+# ===================================================================== S5F3: enabling / disabling one alarm
+from secsgem.secs.functions.streams_functions import StreamsFunctions  # noqa: E402
+from spec.ext import AbsDecoded, AbsItem  # noqa: E402
+
+from contracts.C13_constants import ItemGetAbs13  # noqa: E402
+
+
+class _DataItems5:
+    """the part of settings.data_items the S5F3 handler looks at (real constants)"""
+    ACKC5 = DI.ACKC5
+    ALED = DI.ALED
+
+
+class _StreamsFunctions5(StreamsFunctions):
+    data_items = _DataItems5
+
+
+@contract("secsgem.secs.functions.streams_functions:StreamsFunctions.decode", "C13", name="DecodeS5F3Abs")
+class DecodeS5F3Abs:
+    """ASSUMED (C03): the decoded S5F3 is its (ALED, ALID) record (ghost: the request the unit quantifies over)."""
+
+    abstract = True
+    returns = Same("self.g_req")
+
+
+@contract("secsgem.gem.alarm_capability:AlarmCapability._on_s05f03", "C13")
+class OnS5F3:
+    """S5F3 for ANY alarm id, ANY table of alarms and the two ALED values the library defines (128 enable, 0 disable): a
+    known alarm is switched to exactly that state and acknowledged with ACKC5 0, nothing else changes (no other alarm, not
+    its set state); an unknown id is answered with a non-zero ACKC5 and changes nothing."""
+
+    cases = [("enable", {"aled": 128}), ("disable", {"aled": 0})]
+    uses = [DecodeS5F3Abs, ItemGetAbs13, StreamFunctionAbs13, NewFunctionAbs13]
+
+    def inputs(aled):
+        return {"self": Obj(GemEquipmentHandler,
+                            _alarms=MapOf(Alarm, set=Bool, enabled=Bool, code=Int, text=Int, ce_on=Int, ce_off=Int),
+                            _settings=Obj(Settings, _streams_functions=Obj(_StreamsFunctions5, g_req=Obj(
+                                AbsDecoded, ALED=Obj(AbsItem, g_value=Const(aled)), ALID=Obj(AbsItem, g_value=Int))))),
+                "_handler": Const(None), "message": Const(None)}
+
+    def raises():
+        return {}
+
+    def ensures(self, old, result):
+        a, a0 = self._alarms, old.self._alarms
+        req = self._settings._streams_functions.g_req
+        alid, on = req.ALID.g_value, req.ALED.g_value == 128
+        known = alid in a0
+        return {
+            "s5f4": result.g_stream == 5 and result.g_function == 4,
+            "ack-0-iff-known": (result.g_value == 0) == known,
+            "known-alarm-takes-the-state": implies(known, lambda: a[alid].enabled == on),
+            "nothing-else-changes": forall(-2 ** 63, 2 ** 64, lambda k: a[k].set == a0[k].set and implies(k != alid or not known, lambda: a[k].enabled == a0[k].enabled)),
+        }
